@@ -359,6 +359,22 @@ def _check_ws(world: World, case: dict, sess: WSSession, inst: Instance, t_fail:
         complete = "websocket.http.response.body" in sent and any(
             e[2]["type"] == "websocket.http.response.body" and not e[2].get("more_body", False) and e[3] == "ok"
             for e in inst.sends)
+        body_sent = "websocket.http.response.body" in sent
+        if not body_sent:
+            # the denial was announced but nothing of it can be on the wire yet: the client must still be
+            # answered (500, as when nothing had been started) - never left with an empty reply
+            if status is None:
+                if sess.carrier == "h1":
+                    answered = bool(sess.client.http.responses) or sess.client.http.current is not None
+                else:
+                    st = sess.peer.streams.get(sess.sid)
+                    answered = st is not None and (st.status is not None or st.reset is not None)
+                if not answered:
+                    bad("500-when-nothing-sent", "websocket application failed between the start and the body of its "
+                        "denial response; the client received no answer at all")
+            elif status != 500 and status != 401:
+                bad("500-when-nothing-sent", f"websocket application failed right after announcing a denial; client "
+                    f"saw {status}")
         if not complete and sess.carrier == "h1":
             r = sess.client.http.responses[0] if sess.client.http.responses else None
             if r is not None and r.complete and r.status == 401 and bytes(r.body) != b"denied":
